@@ -256,6 +256,20 @@ def case_oracle(spec):
                     bad = (diff > tol) & np.isfinite(diff)
                     if m is not None:
                         bad = bad & ~m if m.shape == bad.shape else bad
+                    # NumPy's result has dtype rd: a returned value that rd
+                    # cannot represent is not a value NumPy obtains, whatever
+                    # the rounding slack of the operations involved
+                    back = got.astype(rd).astype(wide)
+                    lossy = (back != got.astype(wide)) & np.isfinite(
+                        got.astype(wide)) & np.isfinite(back)
+                    if m is not None and m.shape == lossy.shape:
+                        lossy = lossy & ~m
+                if lossy.any():
+                    k = tuple(int(i) for i in np.argwhere(lossy)[0])
+                    return Failure(
+                        "value-in-wider-type", f"{key} ({op}): returned as "
+                        f"{got.dtype}; the value {got[k]!r} at {k} is not "
+                        f"representable in NumPy's result type {rd}", op), info
                 if bad.any():
                     return Failure(
                         "value-in-wider-type", f"{key} ({op}): returned as "
@@ -325,7 +339,40 @@ def run_shard(shard: int, nshards: int, seed: int, tier: str) -> ShardResult:
             res.fail(f, spec)
 
     hyp_run(progen.programs(cfg), body, seed, pl["examples"])
+    k[0] = 1      # (no renaming in the enumerated cases)
+    for j, spec in enumerate(dtype_override_gadgets()):
+        if j % nshards == shard:
+            k[0] = 1
+            res.count("dtype_override_gadget")
+            body((spec, None))
     return res
+
+
+def dtype_override_gadgets():
+    """constructors whose dtype is an argument of the call and not that of an
+    operand (zeros_like/ones_like with dtype=, zeros/ones/full/eye/arange,
+    astype), followed by inexact arithmetic in that dtype: the generated
+    code must compute in the dtype given"""
+    F = ("float32", "float64", "complex128")
+
+    def ph(name, d):
+        vals = [1, 2, 5]
+        return {"op": "placeholder", "p": {
+            "name": name, "dtype": d, "shape": [3], "scale": 0,
+            "values": [[v, 0] for v in vals] if d.startswith("complex")
+            else vals}}
+    for d0 in F:
+        for d1 in F:
+            for op in ("zeros_like", "ones_like", "astype"):
+                if op == "astype" and d0.startswith("complex") \
+                        and not d1.startswith("complex"):
+                    continue
+                yield {"nodes": [
+                    ph("x", d0), ph("y", d1),
+                    {"op": op, "args": [["n", 0]], "p": {"dtype": d1}},
+                    {"op": "add", "args": [["n", 2], ["n", 1]]},
+                    {"op": "truediv", "args": [["n", 3], ["py", 3]]}],
+                    "outputs": [["out0", 4]]}
 
 
 def _known_strong_scalar(case, failure) -> bool:
